@@ -42,9 +42,17 @@ Proof. intros. eapply any_two_segmentations_agree; eauto. Qed.
 Theorem C06_meaning_exists : forall s, exists ms r tl, Dec s ms r tl.
 Proof. intros. apply dec_total. reflexivity. Qed.
 
-(* the executable recv_frame / drain of Conn.v follow conn_parse's decisions by construction (Deliver -> return the frame,
-   Skip -> parse again, Wait -> read, Fail -> Err); a Coq lemma relating `drain` to `Dec` is not proved, the correspondence
-   runs `drain` against the real Connection on all cuts of short streams *)
+(* the same for the EXECUTABLE loop of Conn.v (`exec`: one read at a time, recv_frame called until pending, exactly what
+   the correspondence runs against the real Connection): for all non-empty reads it delivers the messages of the whole stream
+   and ends pending with exactly the undecoded remainder buffered, or with an error where the stream is malformed *)
+Theorem C06_exec_segmentation : forall chunks, Forall (fun c => c <> []) chunks ->
+  exists ms r tl, Dec (concat chunks) ms r tl /\
+                  exec [] chunks [] = (ms, st_of r, match r with SMore => tl | SBad => snd (exec [] chunks []) end).
+Proof.
+  intros chunks H.
+  destruct (exec_segmentation_independent eq_refl eq_refl chunks [] [] [] [] H (dec_wait [] eq_refl)) as (ms & r & tl & D & E).
+  exists ms, r, tl. split; assumption.
+Qed.
 
 (* the pinned decoder is refuted: an unknown id whose body has not arrived crashed the connection *)
 Example C06_nonvacuous : parse_frame [0;0;0;5;9;0] = PUnknown 9 9 /\ conn_parse [0;0;0;5;9;0] = PWait
@@ -58,3 +66,4 @@ Print Assumptions C06_error_terminates.
 Print Assumptions C06_segmentation.
 Print Assumptions C06_any_two_cuts_agree.
 Print Assumptions C06_meaning_exists.
+Print Assumptions C06_exec_segmentation.
